@@ -741,7 +741,72 @@ def compare_all(ctx, outs, pending):
             compare_groups(ctx, out, *item[1:])
 
 
+def guarded_area_checks(ctx):
+    """the real `_guarded_intersection_area` / `intersection_area` of image catalogs, groups (1..3
+    members, members at different places) and reference catalogs against an INDEPENDENT evaluation:
+    the documented semantics is the sum, over the members of both operands, of the areas of the
+    pairwise polygon intersections (computed here directly with spherical_geometry)"""
+    import math
+    from astropy.table import Table
+    from tweakwcs.wcsimage import WCSImageCatalog, WCSGroupCatalog, RefCatalog
+    from .. import alignsim
+    rng = ctx.rng
+    nprng = np.random.default_rng(rng.getrandbits(32))
+
+    def parea(p, q):
+        a = abs(p.intersection(q).area())
+        return min(a, 4 * math.pi - a)
+
+    def members(o):
+        if isinstance(o, WCSGroupCatalog):
+            return [m.polygon for m in o]
+        return [o.polygon]
+
+    for _ in range(ctx.n(4, 100)):
+        scene = alignsim.Scene(nprng)
+        objs = []
+        for k in range(rng.randint(3, 5)):
+            origin = (rng.choice([0, 300, 600, 900, 1500, 2400]), rng.choice([0, 250, 500, 1400]))
+            c, _ids = scene.make_image(k, origin, 'good', None, err=(0.0, 0.0))
+            objs.append(WCSImageCatalog(c.meta['catalog'], c, name='im%d' % k))
+        singles = list(objs)
+        groups = []
+        for _g in range(rng.randint(1, 2)):
+            mem = rng.sample(singles, rng.randint(1, min(3, len(singles))))
+            groups.append(WCSGroupCatalog(mem, name='g'))
+        ref_ids = [k for k in scene.ids if 0 <= scene.G[k][0] <= rng.choice([500, 900]) and
+                   0 <= scene.G[k][1] <= rng.choice([500, 900])]
+        refs = []
+        if len(ref_ids) >= 3:
+            rd = scene.sky_of(ref_ids)
+            refs.append(RefCatalog(Table([rd[:, 0], rd[:, 1]], names=('RA', 'DEC'))))
+        pool = [('image', o) for o in singles] + [('group%d' % len(list(g)), g) for g in groups] + \
+               [('refcat', r) for r in refs]
+        for (ka, a) in pool:
+            for (kb, b) in pool:
+                if a is b:
+                    continue
+                case = {'op': 'guarded-area', 'a': ka, 'b': kb}
+                try:
+                    got, nf = a._guarded_intersection_area(b)
+                except Exception as e:   # noqa
+                    ctx.case(case, nontrivial=True, branch='guarded:%s:%s' % (ka, kb))
+                    ctx.oracle_fail(case, {'what': '_guarded_intersection_area raised', 'exc': repr(e)[:200]})
+                    continue
+                want = sum(parea(p, q) for p in members(a) for q in members(b))
+                ctx.case(dict(case, want=want, got=float(got)), nontrivial=want > 0,
+                         branch='guarded:%s:%s' % (ka, kb))
+                if nf:
+                    ctx.near_tie()
+                    continue
+                if abs(float(got) - want) > 2e-3 * max(abs(want), abs(float(got))) + 5e-15:
+                    ctx.oracle_fail(case, {'what': 'guarded intersection area differs from the sum of the pairwise '
+                                                   'polygon intersections of the members', 'got': float(got),
+                                           'want': want, 'members_a': len(members(a)), 'members_b': len(members(b))})
+
+
 def run(ctx):
+    guarded_area_checks(ctx)
     from tweakwcs import imalign
     lines, pending = [], []
     with WarnCounter() as warn:
